@@ -25,6 +25,14 @@ CLAIMED = {
         "Trusted: z3 QF_BV, the RXA regex encoding (differentially validated against `re`), the SXM/DSE interpreters (validated by replay), the lexical DFA in fv/oracles.py.",
         "DESIGN.md §5 C02",
     ),
+    "C03": (
+        "symbolic execution of the real FortranReader + parser on symbolic source text (finite-choice comment lines) and of the admonition pre-processor, decided by z3",
+        "For every combination of following / preceding / alternate-block doc comments, ordinary comments, inline docs and their absence between "
+        "two declarations, each entity receives exactly its documentation lines, once and in order (reader and parser both real); the admonition "
+        "pre-processor keeps every word of 3-4 symbolic doc lines once and in order and raises only for the documented marker errors.",
+        "Trusted: z3, CV evaluator, the attachment oracle written from the user guide.",
+        "DESIGN.md §5 C03",
+    ),
     "C04": (
         "symbolic execution of the REAL parser on symbolic programs (finite-choice statements: spellings x placements), assertions decided by z3",
         "The real FortranSourceFile parser (cascade, constructors, line_to_variables, process_attribs) runs on a symbolic module / derived type "
@@ -119,6 +127,14 @@ CLAIMED = {
         "entities win over A's, names only A defines link to A's exported entities, Project.find prefers local entities.",
         "Trusted: z3, CV evaluator; A's modules.json is produced by the real dump_modules in the same run; local (file) external projects only.",
         "DESIGN.md §5 C16",
+    ),
+    "C18": (
+        "symbolic execution of the real parser on declarations with finite-choice literal texts + SMT check of Jinja template expressions (escaping for every operand truthiness)",
+        "For every literal of a table of HTML/Markdown-significant and placeholder-like texts in 5 declaration forms the recorded initial value is the "
+        "source literal verbatim (only runs of blanks become NBSP); bind(...) texts are verbatim; every template expression printing `<x>.initial` "
+        "is escaped whatever the truthiness of its operands.",
+        "Trusted: z3, CV evaluator, Jinja's parser; only the `.initial` print sites are covered on the template side.",
+        "DESIGN.md §5 C18",
     ),
 }
 
